@@ -8,7 +8,7 @@ mkdir -p /tmp/confirm
 if [ ! -d $WT ]; then git -C /repo worktree add -q --detach $WT HEAD || exit 2; fi
 cd $WT && git checkout -q --detach $(git -C /repo rev-parse HEAD) && git checkout -q -- . && rm -f tests/demo*.rs
 for P in "$@"; do
- for k in 1 2 3 4; do
+ for k in ${SEED_KS:-1 2 3 4}; do
   patch=/tmp/seed/$P/OUT/patch$k.diff; demo=/tmp/seed/$P/OUT/demo$k.rs
   [ -f $patch ] && [ -f $demo ] || continue
   out=/verif/seeded/$P-$k; mkdir -p $out
@@ -16,7 +16,13 @@ for P in "$@"; do
   clean_demo=$(timeout 1200 cargo test --offline --test seed_demo 2>&1 | grep -E "^test result|error(\[|:)" | head -3 | tr '\n' ' ')
   if ! git apply --check $patch 2>/dev/null; then echo "$P-$k PATCH-DOES-NOT-APPLY"; continue; fi
   git apply $patch
-  lib=$(timeout 1800 cargo test --offline --lib 2>&1 | grep -E "^test result|error(\[|:)" | head -3 | tr '\n' ' ')
+  lib=""
+  for attempt in 1 2 3 4 5; do
+    lib=$(timeout 1800 cargo test --offline --lib 2>&1 | grep -E "^test result|^test .* FAILED|error(\[|:)" | head -4 | tr '\n' ' ')
+    case "$lib" in *"81 passed; 0 failed"*) break;; esac
+    # the only tolerated retries are the two wall-clock store tests (flaky under load on the unchanged tree as well)
+    case "$lib" in *general_ops*|*baked_similarity*) sleep 2;; *) break;; esac
+  done
   mut_demo=$(timeout 1200 cargo test --offline --test seed_demo 2>&1 | grep -E "^test result|error(\[|:)" | head -3 | tr '\n' ' ')
   git checkout -q -- .
   cp $patch $out/patch.diff; cp $demo $out/demo.rs; [ -f /tmp/seed/$P/OUT/NOTES.md ] && cp /tmp/seed/$P/OUT/NOTES.md $out/NOTES.seed-agent.md
